@@ -61,9 +61,9 @@ theorem evalSteps_isNodeSet (env : Env) (steps : List Step) :
         subst ha
         exact ih _ r (env.norm_isNodeSet _) hr
 
-theorem callFn_wf (env : Env) (cx : Cx) (f : String) (args : List (Value N)) (v : Value N)
-    (h : callFn env cx f args = .ok v) : v.WF := by
-  unfold callFn at h
+theorem callCore_wf (env : Env) (cx : Cx) (f : String) (args : List (Value N)) (v : Value N)
+    (h : callCore env cx f args = .ok v) : v.WF := by
+  unfold callCore at h
   split at h
   all_goals (first
     | (simp only [pure, Except.pure, Except.ok.injEq] at h; subst h; first | trivial | exact isNodeSet_singleton _)
@@ -77,6 +77,46 @@ theorem callFn_wf (env : Env) (cx : Cx) (f : String) (args : List (Value N)) (v 
     split at h
     · simp only [pure, Except.pure, Except.ok.injEq] at h; subst h; trivial
     · split at h <;> simp only [pure, Except.pure, Except.ok.injEq] at h <;> subst h <;> trivial
+
+theorem derivedFn_wf (env : Env) (self : Bool) (l : List Ref) (name : Bytes) (v : Value N)
+    (h : derivedFn env self l name = .ok v) : v.WF := by
+  unfold derivedFn at h
+  split at h
+  · simp only [pure, Except.pure, Except.ok.injEq] at h; subst h; trivial
+  all_goals (simp [throw, throwThe, MonadExceptOf.throw] at h)
+
+theorem derefFn_wf (env : Env) (l : List Ref) (v : Value N) (h : derefFn env l = .ok v) : v.WF := by
+  unfold derefFn at h
+  split at h
+  · simp only [pure, Except.pure, Except.ok.injEq] at h; subst h; exact List.Pairwise.nil
+  · split at h
+    · simp only [pure, Except.pure, Except.ok.injEq] at h; subst h; exact List.Pairwise.nil
+    · split at h
+      · simp [throw, throwThe, MonadExceptOf.throw] at h
+      · simp only [pure, Except.pure, Except.ok.injEq] at h; subst h; exact env.norm_isNodeSet _
+
+theorem callYang_wf (env : Env) (f : String) (args : List (Value N)) (r : Except Err (Value N)) (v : Value N)
+    (h : callYang env f args = some r) (hv : r = .ok v) : v.WF := by
+  unfold callYang at h
+  split at h
+  all_goals (first
+    | (simp only [Option.some.injEq] at h; subst h
+       first
+        | exact derivedFn_wf _ _ _ _ _ hv
+        | exact derefFn_wf _ _ _ hv
+        | (simp [throw, throwThe, MonadExceptOf.throw] at hv; done)
+        | (simp only [pure, Except.pure, Except.ok.injEq] at hv; subst hv; trivial)
+        | (split at hv
+           · simp only [pure, Except.pure, Except.ok.injEq] at hv; subst hv; trivial
+           · simp [throw, throwThe, MonadExceptOf.throw] at hv))
+    | (simp at h; done))
+
+theorem callFn_wf (env : Env) (cx : Cx) (f : String) (args : List (Value N)) (v : Value N)
+    (h : callFn env cx f args = .ok v) : v.WF := by
+  unfold callFn at h
+  split at h
+  · rename_i r hr; exact callYang_wf env f args r v hr h
+  · exact callCore_wf env cx f args v h
 
 theorem mapM'_pure (g : Ref → List Ref) : ∀ s : List Ref, mapM' (fun c => (pure (g c) : Except Err (List Ref))) s = .ok (s.flatMap g) := by
   intro s
